@@ -8,7 +8,7 @@ RULE = ("BFS over histories of put(fresh)/get/cancel(pending get k) on a real De
         "(size, backlog) in {None,0,1,2,3}^2; every transition is executed on the real object and compared "
         "with a list-based FIFO reference (delivery target, order, QueueOverflow/QueueUnderflow). "
         "non-trivial = distinct canonical states in which a limit was hit, a get was pending or a cancel happened")
-BOUNDS = {"quick": "depth 10", "thorough": "depth 13"}
+BOUNDS = {"quick": "depth 12", "thorough": "depth 16"}
 ASSUMPTIONS = ["canonical state = (config, queued values and pending gets relative to the put/get counters, "
                "Deferred.called flags); completed gets are dropped because neither the queue nor the harness "
                "references them again"]
@@ -137,7 +137,7 @@ def shards(tier, seed):
 
 def run_shard(shard, tier, seed):
     size, backlog = shard
-    depth = 10 if tier == "quick" else 13
+    depth = 12 if tier == "quick" else 16
     stats = Stats()
 
     def on_state(st, hist):
